@@ -400,6 +400,35 @@ fn check_chain(c: &ChainCase, cx: &mut Cx) -> Res {
             prev[k] = v;
         }
     }
+    // --- a checkout whose .git is a file (a linked work tree), nested below the main checkout in an
+    // ignored directory, holds the commits after the tag; the main checkout goes back to the tag.
+    // Run from inside it (no -C) flow describes *that* checkout: the same answer as with -C, above the tag.
+    if !c.steps.is_empty() {
+        let head = repo.model.commits[repo.model.head_commit()].hash.clone();
+        let tagh = repo.model.commits[tagged_commit].hash.clone();
+        let wt = repo.dir.join("ignored").join("wt");
+        let made = repo.git(&["worktree", "add", "-q", "--detach", "ignored/wt", &head], None).and_then(|_| repo.git(&["checkout", "-q", "--detach", &tagh], None));
+        if let Err(e) = made {
+            infra(format!("cannot create the linked work tree: {e}"));
+            return Ok(());
+        }
+        for (k, pep440) in [false, true].into_iter().enumerate() {
+            let fmt = if pep440 { "pep440" } else { "semver" };
+            let base = ["--post-mode", "commit", "--schema", schema, "--output-format", fmt];
+            let mut with_c = vec!["flow", "-C", wt.to_str().unwrap_or("")];
+            with_c.extend(base);
+            let mut inside = vec!["flow"];
+            inside.extend(base);
+            let a = crate::proc::run(&crate::proc::Spec { args: cli::sv(&with_c), cwd: Some("/".into()), ..Default::default() });
+            let b = crate::proc::run(&crate::proc::Spec { args: cli::sv(&inside), cwd: Some(wt.to_string_lossy().into_owned()), ..Default::default() });
+            ensure!(a.code == Some(0) && b.code == Some(0), "flow fails in a linked work tree nested below the main checkout: with -C exit {:?} ({}), from inside exit {:?} ({})", a.code, a.err_str().trim(), b.code, b.err_str().trim());
+            let (va, vb) = (a.out_str().trim_end().to_string(), b.out_str().trim_end().to_string());
+            ensure!(va == vb, "linked work tree nested below the main checkout (main at the tag {tag}, work tree {} commits later): flow prints {vb:?} from inside it and {va:?} with -C ({fmt}, {schema})", c.steps.len());
+            let _ = k;
+            ensure!(cmp_out(&x, &vb, pep440)? == Ordering::Less, "linked work tree {} commits after the tag {tag}: flow prints {vb:?}, which is not above the tag ({fmt}, {schema})", c.steps.len());
+            cx.label("nested-linked-worktree");
+        }
+    }
     Ok(())
 }
 
